@@ -323,37 +323,44 @@ theorem cover_sound (c : Cover) : Cover.statement c := by
 /-- the extractor parsed and type-checked every anchored package -/
 theorem no_extractor_problems : BMV.Gen.MapRanges.problems = [] := by decide
 
-private theorem covered_sound : ∀ (ss : List Site) (rs : List Row), Expect.covered ss rs = true →
+private theorem coveredRows_sound : ∀ (ss : List Site) (rs : List Row), Expect.coveredRows ss rs = true →
     ∀ s ∈ ss, ∃ r ∈ rs, r.key = s.key
   | [], _, _ => by intro s hs; cases hs
-  | _ :: _, [], h => by simp [Expect.covered] at h
+  | _ :: _, [], h => by simp [Expect.coveredRows] at h
   | s :: ss, r :: rs, h => by
-    unfold Expect.covered at h
+    unfold Expect.coveredRows at h
     split at h
     · rename_i hm
       simp only [beq_iff_eq] at hm
       intro s' hs'
       rcases mem_cons.mp hs' with rfl | hs'
       · exact ⟨r, mem_cons_self, hm⟩
-      · obtain ⟨r', hr', e⟩ := covered_sound ss rs h s' hs'
+      · obtain ⟨r', hr', e⟩ := coveredRows_sound ss rs h s' hs'
         exact ⟨r', mem_cons_of_mem _ hr', e⟩
     · intro s' hs'
-      obtain ⟨r', hr', e⟩ := covered_sound (s :: ss) rs h s' hs'
+      obtain ⟨r', hr', e⟩ := coveredRows_sound (s :: ss) rs h s' hs'
       exact ⟨r', mem_cons_of_mem _ hr', e⟩
 
 /-- the merge pass over the regenerated table and the hand-written one (kernel evaluation) -/
 theorem sites_covered : Expect.covered BMV.Gen.MapRanges.sites Expect.rows = true := by decide +kernel
 
 /-- REGENERATED OBLIGATION.  Every nondeterminism site of the current source (every `range` over
-    a map, every clock / rand / temp-path use, every `go` statement in the packages of the five
-    tools) is classified in the hand-written table with the same syntactic class.  A new site, or
-    a site whose loop body changed class, makes this fail.  "partial": being classified is not
-    being order independent — rows may say `.unproved` or `.finding`; see `C07_full`.
-    (`key` = FNV-1a-64 of identity and class, `Sched.siteKey`; the table's keys are recomputed
-    from its strings when BMV/SchedExpect.lean is compiled.) -/
+    a map or an order-tainted slice, every maps.Keys-style walk, every custom-comparator sort, every
+    clock / rand / temp-path use, every `go` statement in the packages of the five tools) either has
+    the generic collect-then-library-sort shape (`sortedKeysKey`; order independent by
+    `sorted_after_det`, wherever the code lives) or is classified in the hand-written table with the
+    same syntactic class.  A new site, or a site whose body changed class, makes this fail.
+    "partial": being classified is not being order independent — rows may say `.unproved` or
+    `.finding`; see `C07_full`.  (`key` = FNV-1a-64 of identity and class, `Sched.siteKey`; the
+    table's keys are recomputed from its strings when BMV/SchedExpect.lean is compiled.) -/
 theorem sites_classified_partial :
-    ∀ s ∈ BMV.Gen.MapRanges.sites, ∃ r ∈ Expect.rows, r.key = s.key :=
-  covered_sound _ _ sites_covered
+    ∀ s ∈ BMV.Gen.MapRanges.sites, s.key = sortedKeysKey ∨ ∃ r ∈ Expect.rows, r.key = s.key := by
+  intro s hs
+  by_cases hk : s.key = sortedKeysKey
+  · exact Or.inl hk
+  · refine Or.inr (coveredRows_sound _ _ sites_covered s ?_)
+    simp only [mem_filter, bne_iff_ne, ne_eq]
+    exact ⟨hs, hk⟩
 
 /-- verdicts fit their classes ("sorted after" only where the extractor saw the sort; reasons
     are not empty) -/
@@ -363,6 +370,6 @@ theorem expect_admissible : ∀ r ∈ Expect.rows, r.admissible = true := by dec
     theorem, a sort, or an order-insensitivity argument.  NOT proved (false today: the table has
     `.unproved` and `.finding` rows); kept visible. -/
 def C07_full : Prop :=
-  ∀ s ∈ BMV.Gen.MapRanges.sites, ∃ r ∈ Expect.rows, r.key = s.key ∧ r.verdict.closed = true
+  ∀ s ∈ BMV.Gen.MapRanges.sites, s.key = sortedKeysKey ∨ ∃ r ∈ Expect.rows, r.key = s.key ∧ r.verdict.closed = true
 
 end BMV.Props.C07
